@@ -72,6 +72,30 @@ def gen_matrix(ctx):
         if n % 2:
             hs.append(dict(kind="circle", r=0.4, points=14, center=(0.9, -0.3)))
         out.append(dict(film=films[0], holes=hs, terminals=termsets[n % 3], mesh=meshes[n % 2], xi=xis[n % 3]))
+    # the primitives AS THE USER SPECIFIES THEM (checked against the harness' own rectangle / ellipse, see MeshGeom!GenAnalytic):
+    # elongated boxes (aspect 30-100; default and small `points`), tilted boxes / ellipses / holes / terminals, flat terminal slivers
+    ends = lambda w, h: [dict(kind="box", w=0.2, h=h, center=(-w / 2, 0)), dict(kind="box", w=0.2, h=h, center=(w / 2, 0))]
+    tag = lambda d, t: dict(d, family=t)
+    out.append(tag(dict(film=dict(kind="box", w=100, h=2), holes=[], terminals=ends(100, 2), mesh=dict(max_edge_length=2.0), xi=1.0), "elongated"))
+    out.append(tag(dict(film=dict(kind="box", w=60, h=1), holes=[], terminals=[], mesh=dict(max_edge_length=1.2), xi=2.0), "elongated"))
+    out.append(tag(dict(film=dict(kind="box", w=40, h=1, points=20), holes=[], terminals=ends(40, 1), mesh=dict(max_edge_length=1.0), xi=1.0), "elongated"))
+    out.append(tag(dict(film=dict(kind="box", w=1, h=45, points=60, center=(3, -2)), holes=[], terminals=[], mesh=dict(max_edge_length=1.1), xi=1.0), "elongated"))
+    out.append(tag(dict(film=dict(kind="box", w=6, h=3, points=60, center=(1, 0.5), angle=25),
+                        holes=[dict(kind="ellipse", a=1.0, b=0.5, points=16, center=(1.5, 0.3), angle=25)],
+                        terminals=[dict(kind="box", w=0.2, h=3, center=(-2, 0.5), angle=25), dict(kind="box", w=0.2, h=2, center=(4, 0.7), angle=25)],
+                        mesh=dict(max_edge_length=0.7), xi=1.0), "tilted"))
+    out.append(tag(dict(film=dict(kind="ellipse", a=3, b=1.5, points=40, center=(0.5, -0.3), angle=40),
+                        holes=[dict(kind="box", w=1.0, h=0.4, points=12, center=(0.6, -0.2), angle=40)], terminals=[],
+                        mesh=dict(max_edge_length=0.6, smooth=5), xi=0.5), "tilted"))
+    out.append(tag(dict(film=dict(kind="box", w=5, h=2, points=48, center=(-1, 2), angle=90), holes=[], terminals=[], mesh=dict(max_edge_length=0.7), xi=1.0), "tilted"))
+    out.append(tag(dict(film=dict(kind="box", w=5, h=3, points=40), holes=[],
+                        terminals=[dict(kind="box", w=1.1, h=0.01, center=(0.3, 1.5)), dict(kind="box", w=2.0, h=0.02, center=(-0.5, -1.5))],
+                        mesh=dict(max_edge_length=0.6), xi=1.0), "sliver-terminals"))
+    # meshes that come out of Mesh.smooth itself: Mesh.smooth(n) on a device mesh, Polygon.make_mesh(smooth=n)
+    out.append(tag(dict(film=films[0], holes=holesets[1], terminals=termsets[1], mesh=dict(max_edge_length=0.7), xi=1.0, via="mesh.smooth", smooth_again=1), "mesh.smooth"))
+    out.append(tag(dict(film=films[2], holes=[], terminals=[], mesh=dict(max_edge_length=0.8), xi=0.5, via="mesh.smooth", smooth_again=5), "mesh.smooth"))
+    out.append(tag(dict(film=films[0], holes=[], terminals=termsets[2], mesh=dict(max_edge_length=0.7, smooth=3), xi=1.0, via="polygon.make_mesh"), "polygon.make_mesh"))
+    out.append(tag(dict(film=films[3], holes=[], terminals=[], mesh=dict(min_points=100, smooth=10), xi=1.0, via="polygon.make_mesh"), "polygon.make_mesh"))
     # a square with a fine mesh: Triangle puts right-angled triangles at the corners (circumcentre on the boundary edge)
     out.append(dict(film=dict(kind="box", w=4, h=4, points=52), holes=[], terminals=[], mesh=dict(min_points=300), xi=1.0))
     # ... and seeded random combinations
@@ -96,6 +120,33 @@ def gen_matrix(ctx):
         if not me and xi < 1:
             xi = 1.0
         out.append(dict(film=f, holes=hs, terminals=ts, mesh=me, xi=xi))
+    # ... of the primitives as specified (thorough: many; quick: a few)
+    for _ in range(6 if ctx.quick else 260):
+        fam = rnd.choice(["elongated", "tilted", "tilted", "mesh.smooth", "polygon.make_mesh"])
+        if fam == "elongated":
+            h = rnd.choice([0.5, 1, 2])
+            w = round(h * rnd.uniform(30, 100), 1)
+            f = dict(kind="box", w=w, h=h, center=(round(rnd.uniform(-5, 5), 1), round(rnd.uniform(-2, 2), 1)))
+            if rnd.random() < 0.5:
+                f["points"] = rnd.choice([20, 40, 60, 150])
+            if rnd.random() < 0.3:
+                f["w"], f["h"] = f["h"], f["w"]
+            out.append(tag(dict(film=f, holes=[], terminals=[], mesh=dict(max_edge_length=round(1.1 * h, 2)), xi=rnd.choice([1.0, 2.0])), fam))
+        elif fam == "tilted":
+            ang = rnd.choice([25, 40, -30, 90, 117.5, 200, 270])
+            c = (round(rnd.uniform(-2, 2), 2), round(rnd.uniform(-2, 2), 2))
+            if rnd.random() < 0.5:
+                f = dict(kind="box", w=round(rnd.uniform(4, 7), 1), h=round(rnd.uniform(2, 3.5), 1), points=rnd.choice([40, 60, 101]), center=c, angle=ang)
+            else:
+                f = dict(kind="ellipse", a=round(rnd.uniform(2.5, 3.5), 1), b=round(rnd.uniform(1.2, 2.0), 1), points=rnd.choice([30, 40, 56]), center=c, angle=ang)
+            hs = [dict(kind=rnd.choice(["ellipse", "box"]), a=0.8, b=0.4, w=0.9, h=0.4, points=14, center=(c[0] + 0.3, c[1] - 0.1), angle=ang)] if rnd.random() < 0.6 else []
+            out.append(tag(dict(film=f, holes=hs, terminals=[], mesh=dict(max_edge_length=rnd.choice([0.6, 0.8]), smooth=rnd.choice([0, 0, 5])), xi=rnd.choice(xis)), fam))
+        elif fam == "mesh.smooth":
+            out.append(tag(dict(film=copy.deepcopy(rnd.choice(films[:4])), holes=copy.deepcopy(rnd.choice(holesets[:3])), terminals=[],
+                                mesh=dict(max_edge_length=rnd.choice([0.6, 0.8])), xi=rnd.choice(xis), via="mesh.smooth", smooth_again=rnd.choice([1, 2, 5, 20])), fam))
+        else:
+            out.append(tag(dict(film=copy.deepcopy(rnd.choice(films[:4] + films[6:7])), holes=[], terminals=[],
+                                mesh=dict(max_edge_length=rnd.choice([0.6, 0.8]), smooth=rnd.choice([1, 3, 10])), xi=1.0, via="polygon.make_mesh"), fam))
     return out
 
 
@@ -194,6 +245,27 @@ def run(ctx):
     if not ctx.violations:
         if not any(t["holes"] for t in okg) or not any(t["TERM"] for t in okg) or not any(t["holes"] >= 2 for t in okg):
             raise core.MachineryFailure("C07: no accepted generated mesh with holes / two holes / terminals (vacuous)")
+        def spec(t):
+            return json.loads(t["key"])
+
+        fams = {
+            "elongated box (aspect >= 30) with its analytic rectangle": lambda s: s.get("family") == "elongated" and max(s["film"]["w"], s["film"]["h"]) >= 30 * min(s["film"]["w"], s["film"]["h"]),
+            "elongated box with default points": lambda s: s.get("family") == "elongated" and "points" not in s["film"],
+            "tilted box film (angle not a multiple of 180, w != h)": lambda s: s.get("family") == "tilted" and s["film"]["kind"] == "box" and s["film"]["angle"] % 180 != 0,
+            "tilted ellipse film": lambda s: s.get("family") == "tilted" and s["film"]["kind"] == "ellipse" and s["film"]["angle"] % 180 != 0,
+            "tilted hole": lambda s: s.get("family") == "tilted" and any(h.get("angle", 0) % 180 != 0 for h in s["holes"]),
+            "flat sliver terminals": lambda s: s.get("family") == "sliver-terminals",
+            "Mesh.smooth(n) result": lambda s: s.get("via") == "mesh.smooth",
+            "Polygon.make_mesh(smooth=n) result": lambda s: s.get("via") == "polygon.make_mesh" and s["mesh"].get("smooth", 0) >= 1,
+        }
+        ctx.cov["generated_families_accepted"] = {k: sum(1 for t in okg if f(spec(t))) for k, f in fams.items()}
+        wc_sites, all_sites = sum(t["stats"]["well_centred_sites"] for t in okg), sum(t["stats"]["sites"] for t in okg)
+        if 2 * wc_sites < all_sites:
+            raise core.MachineryFailure(f"C07: only {wc_sites} of {all_sites} generated sites are well centred (per-site clauses vacuous)")
+        ctx.cov["generated_with_analytic_domain"] = sum(1 for t in okg if t["ANA"]["have"])
+        for k, v in ctx.cov["generated_families_accepted"].items():
+            if not v:
+                raise core.MachineryFailure(f"C07: no accepted generated mesh in the family '{k}' (vacuous)")
         for flag in ("ctor", "terminal-translate", "terminal-copy", "terminal-scale"):
             hit = [t for t in okg if f'"mesh_flag": "{flag}"' in t["key"]]
             if not hit or all(all(t["hole_mesh_flags"]) for t in hit):
